@@ -3,7 +3,12 @@ package main
 // C17 — connection roles and diffusion modes gate what is accepted.
 //
 // op:  conn <server 0|1> <mode ntn|ntc|dmq> <fullDuplex> <sendKeepAlives> <peerSharing>
-//           <version> <peerDM 0|1> <probeId> <probeResp 0|1>
+//           <version> <peerDM 0|1> <probeId> <probeResp 0|1> [<delayStart 0|1>]
+//
+// With delayStart=1 the connection is made with WithDelayProtocolStart(true): the peer's
+// segment arrives BEFORE the application starts any mini-protocol; only when the connection has
+// not failed by then does the application call the Start()s (of exactly the roles
+// setupConnection would have started), so that a buffered segment is processed.
 //
 // A real ouroboros.Connection is set up over a net.Pipe against a scripted
 // peer that performs the raw handshake (proposing / accepting exactly
@@ -62,7 +67,36 @@ func genC17(r *Rand, n int, tier string, emit func(string)) {
 			}
 		}
 	}
+	// delayed start: an early request for EVERY responder protocol of the mode (and two ids that
+	// are not the mode's), for every version, keep-alive on/off, server and negotiated duplex
+	respIds := map[string][]uint16{"ntn": {2, 3, 4, 8, 10, 18, 19, 20, 5, 21}, "ntc": {5, 6, 7, 9, 2, 8}, "dmq": {14, 15, 5}}
+	for _, mode := range modes {
+		vs := g2TableVersions(mode)
+		for vi, v := range vs {
+			if tier != "thorough" && vi != 0 && vi != len(vs)-1 && vi != len(vs)/2 {
+				continue // quick: first, middle and last version
+			}
+			for _, id := range respIds[mode] {
+				for ka := 0; ka < 2; ka++ {
+					// server, no duplex
+					emit(fmt.Sprintf("conn 1 %s 0 %d %d %d 1 %d 0 1", mode, ka, (int(v)+ka)%2, v, id))
+					if mode == "ntn" && (tier == "thorough" || ka == 0) {
+						// client and server with negotiated duplex: responders must be there too
+						emit(fmt.Sprintf("conn 0 ntn 1 %d 0 %d 0 %d 0 1", ka, v, id))
+						emit(fmt.Sprintf("conn 1 ntn 1 %d 1 %d 0 %d 0 1", ka, v, id))
+					}
+				}
+			}
+		}
+	}
 	for i := 0; i < n; i++ {
+		if r.Chance(1, 3) { // random delayed-start configuration, either direction
+			mode := modes[r.Intn(3)]
+			vs := g2TableVersions(mode)
+			id := g2ProbeIds[r.Intn(len(g2ProbeIds))]
+			emit(fmt.Sprintf("conn %s %s %s %s %s %d %s %d %s 1", b01(r.Bool()), mode, b01(r.Bool()), b01(r.Bool()), b01(r.Bool()), vs[r.Intn(len(vs))], b01(r.Bool()), id, b01(r.Chance(1, 4))))
+			continue
+		}
 		mode := modes[r.Intn(3)]
 		vs := g2TableVersions(mode)
 		id := g2ProbeIds[r.Intn(len(g2ProbeIds))]
@@ -103,9 +137,10 @@ func g2ClassifyConnErr(err error) string {
 
 func runC17(op string) string {
 	f := strings.Fields(op)
-	if len(f) != 10 || f[0] != "conn" {
+	if (len(f) != 10 && len(f) != 11) || f[0] != "conn" {
 		return "bad-op"
 	}
+	delay := len(f) == 11 && f[10] == "1"
 	server := f[1] == "1"
 	mode := f[2]
 	fullDuplex, ka, ps := f[3] == "1", f[4] == "1", f[5] == "1"
@@ -191,11 +226,35 @@ func runC17(op string) string {
 		ouroboros.WithFullDuplex(fullDuplex),
 		ouroboros.WithKeepAlive(ka),
 		ouroboros.WithPeerSharing(ps),
+		ouroboros.WithDelayProtocolStart(delay),
 	)
 	if err != nil {
 		return "setup-failed(" + g2ClassifyHandshakeErr(err) + ")"
 	}
 	defer func() { go func() { _ = conn.Close() }() }()
+	if delay {
+		// the peer's segment has been read by the muxer once the peer's write returned
+		peerState := "ok"
+		select {
+		case peerState = <-peerDone:
+			peerDone <- peerState
+		case <-time.After(g2Deadline()):
+			g2NoteExpired()
+			return "none(peer-blocked)"
+		}
+		// Give the muxer the moment it needs to route what it has just read. (Only the power to
+		// observe "not registered yet" depends on this pause; on correct code both orders give
+		// the same output.)
+		select {
+		case err, ok := <-conn.ErrorChan():
+			if !ok || err == nil {
+				return "closed-without-error"
+			}
+			return g2ClassifyConnErr(err)
+		case <-time.After(100 * time.Millisecond):
+		}
+		g2StartRoles(conn, mode, server, mode == "ntn" && fullDuplex && !peerDM, ka)
+	}
 	select {
 	case err, ok := <-conn.ErrorChan():
 		if !ok || err == nil {
@@ -209,6 +268,54 @@ func runC17(op string) string {
 			return "none(" + s + ")"
 		default:
 			return "none(peer-blocked)"
+		}
+	}
+}
+
+// g2StartRoles is the application's part under WithDelayProtocolStart: it starts exactly the
+// roles setupConnection starts itself without that option.
+func g2StartRoles(conn *ouroboros.Connection, mode string, server, duplex, ka bool) {
+	clientSide := duplex || !server
+	serverSide := duplex || server
+	type cs struct{ client, server func() }
+	var ps []cs
+	switch mode {
+	case "ntn":
+		ps = append(ps, cs{conn.BlockFetch().Client.Start, conn.BlockFetch().Server.Start})
+		ps = append(ps, cs{conn.ChainSync().Client.Start, conn.ChainSync().Server.Start})
+		ps = append(ps, cs{conn.TxSubmission().Client.Start, conn.TxSubmission().Server.Start})
+		if k := conn.KeepAlive(); k != nil {
+			c := k.Client.Start
+			if !ka {
+				c = nil
+			}
+			ps = append(ps, cs{c, k.Server.Start})
+		}
+		if p := conn.PeerSharing(); p != nil {
+			ps = append(ps, cs{p.Client.Start, p.Server.Start})
+		}
+		ps = append(ps, cs{conn.LeiosNotify().Client.Start, conn.LeiosNotify().Server.Start})
+		ps = append(ps, cs{conn.LeiosFetch().Client.Start, conn.LeiosFetch().Server.Start})
+		ps = append(ps, cs{conn.LeiosVotes().Client.Start, conn.LeiosVotes().Server.Start})
+	case "dmq":
+		ps = append(ps, cs{conn.LocalMessageSubmission().Client.Start, conn.LocalMessageSubmission().Server.Start})
+		ps = append(ps, cs{conn.LocalMessageNotification().Client.Start, conn.LocalMessageNotification().Server.Start})
+	default:
+		ps = append(ps, cs{conn.ChainSync().Client.Start, conn.ChainSync().Server.Start})
+		ps = append(ps, cs{conn.LocalTxSubmission().Client.Start, conn.LocalTxSubmission().Server.Start})
+		if q := conn.LocalStateQuery(); q != nil {
+			ps = append(ps, cs{q.Client.Start, q.Server.Start})
+		}
+		if m := conn.LocalTxMonitor(); m != nil {
+			ps = append(ps, cs{m.Client.Start, m.Server.Start})
+		}
+	}
+	for _, p := range ps {
+		if clientSide && p.client != nil {
+			p.client()
+		}
+		if serverSide && p.server != nil {
+			p.server()
 		}
 	}
 }
